@@ -1,6 +1,7 @@
 import Zc.Proofs.PostState
 import Zc.Proofs.Listeners
 import Zc.GenFacts.FnCache
+import Zc.GenFacts.FnCacheRun
 import Zc.Model.BrowserCb
 /-! # C05 — record cache: all lookup paths agree with an RFC 6762 §10 reference model
 
@@ -313,9 +314,12 @@ in every store key and value are the same record — what the D4 repair establis
 the hand-written `Cache` model computes what those bodies compute.  The record manager (`Zc.ingest`) and the purge
 (`Zc.expire`) use the cache only through `CacheOps`; four of its six operations are translated code (`resetTtl` and
 `markFlush` mutate record objects that live in both indexes: outside the translated subset, tied by the differential).
-**Not transported**: `ingest`/`expire` themselves are hand-written and the theorems about them are stated over the model's `CacheOps`;
-the lemma "`ingest` over the generated operations = `ingest` over the model operations under `CInv`" (with `CInv` preserved by
-`resetTtl`/`markFlush` as a hypothesis) is not proved here. -/
+**Connected** (`GenFacts/FnCacheRun.lean`, `C05_ingest_is_source` below): `ingest` / `expire` instantiated with the *generated*
+operations (`genOps`) equal `ingest` / `expire` over the model's operations on the abstraction, for every cache satisfying `CInv` and
+every datagram — under the residual hypothesis `ResidualOk` that the two untranslated in-place mutators (`resetTtl`, `markFlush`) act on
+the abstraction as the model's do and keep `CInv` (not discharged: no model of them on the two-index representation was written).
+**Still not transported**: `ingest` itself (the loop of `async_updates_from_response`) is a hand-written model of the record manager,
+not translated code. -/
 section Tie
 open Zc.Py Zc.GenFn.Cache Zc.GenFacts.FnCache
 
@@ -382,6 +386,19 @@ example :
       (fun o => (o.1, (o.2.entries_with_name id "_x._tcp.local.").map (·.created), (o.2.get id (p 5)).map (·.created)))))
       = some (true, [1000], some 1000) := by
   decide
+
+/-- **The record manager's work on a datagram, and the purge, over the translated cache operations, are the model's** (under `CInv`
+and the residual hypothesis on the two untranslated mutators): so every theorem of this file about `ingest (Cache.ops lower)` /
+`expire (Cache.ops lower)` on `absC s` speaks about the run that calls the translated `_async_add`, `_async_remove`,
+`async_get_unique` and iterates the translated store -/
+theorem C05_ingest_is_source {resetTtlG : DNSCache → Rec → DNSCache}
+    {markFlushG : DNSCache → List (String × Nat × Nat) → List Rec → Ms → DNSCache}
+    (hres : Zc.GenFacts.FnCacheRun.ResidualOk lower resetTtlG markFlushG) (s : DNSCache) (h : CInv lower s) (now : Ms) (recs : List Rec) :
+    (ingest lower (Zc.GenFacts.FnCacheRun.genOps lower resetTtlG markFlushG) s now recs).map (Zc.GenFacts.FnCacheRun.outMap absC)
+        = ingest lower (Cache.ops lower) (absC s) now recs
+    ∧ (expire (Zc.GenFacts.FnCacheRun.genOps lower resetTtlG markFlushG) s now).map (fun p => (absC p.1, p.2))
+        = expire (Cache.ops lower) (absC s) now :=
+  ⟨Zc.GenFacts.FnCacheRun.ingest_gen lower hres s h now recs, Zc.GenFacts.FnCacheRun.expire_gen lower hres s h now⟩
 
 end Tie
 
